@@ -180,3 +180,23 @@ func vh_el_decodehex(n int) {
 	vObserveEl("E0", &e0)
 	vObserveEl("E", e)
 }
+
+// ---- C01 / C19 ----
+func vh_multiply() {
+	p := vElement("p")
+	s := vScalar("s")
+	vFreeze(s)
+	p0 := *p
+	r := p.Multiply(s)
+	vObserve("same", r == p)
+	vObserveEl("P0", &p0)
+	vObserveEl("P", p)
+	vObserve("S", s.S)
+}
+
+func vh_multiply_nil() {
+	p := vElement("p")
+	r := p.Multiply(nil)
+	vObserve("same", r == p)
+	vObserveEl("P", p)
+}
